@@ -1,4 +1,5 @@
-// Package walletrestart: correspondence engine "wallet-restart" for C08 at the wallet.Wallet level.
+// Package walletrestart: correspondence engine "wallet-restart" for C08 and C05 at the wallet.Wallet level
+// (violations are tagged `C08 key=...` / `C05 key=...`; bin/check counts the ones of the property it checks).
 //
 // One case = one real wallet.Wallet on a real bdb file (fast scrypt, idle fake chain backend).  After EVERY op the
 // database file is copied, a SECOND wallet is opened on the copy (wallet.Open) and asked the queries of the property
@@ -9,7 +10,7 @@
 //
 // Ops:
 //
-//	reset
+//	reset [pf=<0|1>]                         pf=1: see probePubFix (gen.go)
 //	newaddr sc=<np|wpkh|tr> a=<n>            wallet.NewAddress
 //	newchange sc= a=                         wallet.NewChangeAddress
 //	curaddr sc= a=                           wallet.CurrentAddress
@@ -985,6 +986,12 @@ func (r *runner) expectNext(res *opResult, name string, sc, a, br int, got des) 
 func (r *runner) Exec(op string) (string, string) {
 	kind, kv := core.KV(op)
 	if kind == "reset" {
+		// pf=1: the generator's probe found the ChangePassphrases public-half fix in the tree (tells the Lean model
+		// which variant to follow; the runner does not care)
+		if v, has := kv["pf"]; has && !is01(v) {
+			r.Close() // a refused reset ends the case's wallet
+			return "bad-op", ""
+		}
 		if err := r.reset(); err != nil {
 			return "harness-error " + err.Error(), ""
 		}
